@@ -36,13 +36,40 @@ typedef std::vector<unsigned char> Bytes;
 // "malloc fails" is made deterministic: a request of 2^20 bytes or more is refused (null), exactly the
 // model's `allocLimit`.  Everything the reader allocates on the say-so of a length / count / index field
 // of the archive (str::resize, Container::Resize) goes through this interface.
+// A Listener used as the key of a hash array is hashed by its address (`Hash<ScriptVariable>`: `(intptr_t)listener`).
+// So that the bucket of such a key is the same in every process (the `canon` pass, the run, a replay), the harness
+// gives the listener of label L an address with `address % 7 == L % 6 + 1` (never 0): `g_residue` is set around the
+// `new` / `ReadObject()` that creates it.  Tables with listener keys are generated with at most 7 entries, i.e. with
+// 1 or 7 buckets.
+unsigned g_residue = 0;
+std::map<void*, void*> g_shifted;      // address handed out -> address malloc returned
+
 class LimitedMemory : public IMemoryManager {
 public:
-    void* allocate(size_t size) override { return size >= (size_t(1) << 20) ? nullptr : std::malloc(size); }
-    void free(void* ptr) noexcept override { std::free(ptr); }
+    void* allocate(size_t size) override
+    {
+        if (size >= (size_t(1) << 20)) return nullptr;
+        if (g_residue && size >= sizeof(Listener) && size <= sizeof(Listener) + 64) {
+            char* raw = static_cast<char*>(std::malloc(size + 128));
+            if (!raw) return nullptr;
+            const unsigned want = g_residue;
+            g_residue = 0;          // the bookkeeping below allocates too
+            size_t off = 16;
+            while (off < 112 && reinterpret_cast<uintptr_t>(raw + off) % 7 != want) off += 16;
+            g_shifted[raw + off] = raw;
+            return raw + off;
+        }
+        return std::malloc(size);
+    }
+    void free(void* ptr) noexcept override
+    {
+        auto it = g_shifted.find(ptr);
+        if (it != g_shifted.end()) { void* raw = it->second; g_shifted.erase(it); std::free(raw); return; }
+        std::free(ptr);
+    }
 };
 
-enum Kind { KPrim, KRaw, KStr, KPtr, KSafe, KPos, KObj, KVal };
+enum Kind { KPrim, KRaw, KStr, KPtr, KSafe, KPos, KObj, KVal, KNamed, KVl };
 enum VKind { VNone, VInt, VFloat, VChar, VStr, VConst0, VConst, VVec, VListener, VCArr, VCRef,
              VRef, VCon, VSCon, VArr, VARef, VPtr, VPRef };
 enum PrimT { I8, I16, I32, I64, U8, U16, U32, U64, CHR, SIZE, BYTE, F32, F64, BOOL, POS, PRIM_BAD };
@@ -68,6 +95,8 @@ struct ItemT {
     Bytes bytes;          // raw / str / class name
     size_t lbl = 0;
     size_t slot = 0;      // pointer slot (read back after Close)
+    bool hasName = false; // KNamed: `bytes` is the name (else: const_str 0)
+    std::vector<ItemT> entries;   // KVl: the named variables of the list, in insertion order (val.tl/th/tli/perm: the set)
     int mode = 0;         // KObj, how the record is read back: 0 ArchiveObject(obj), 1 ReadObject<T>(), 2 ReadObject()
     std::vector<ItemT> body;
 };
@@ -102,6 +131,8 @@ struct Run {
     std::deque<Listener*> plain;               // plain pointer slots (must outlive the Archiver)
     std::deque<SafePtr<Listener>> safe;
     std::deque<ScriptVariable> vars;           // top-level script variables (stable addresses)
+    std::deque<ScriptVariableList> lists;      // `vl` items: the variable lists, in item order
+    size_t nextList = 0;
     std::deque<ScriptVariable> strays;         // write side: variables named by a Ref / a cell list but never archived
     std::map<size_t, ScriptConstArrayHolder*> holderVar;   // write side: const-array holder <label>
     std::map<size_t, ScriptArrayHolder*> arrayVar;         // write side: hash-array holder <label>
@@ -122,9 +153,11 @@ struct Run {
         if (it != objs.end()) return it->second;
         Listener* o;
         auto c = clsOf.find(lbl);
+        g_residue = (unsigned)(lbl % 6 + 1);
         if (c != clsOf.end() && c->second == "VNode") o = new VNode;
         else if (c != clsOf.end() && c->second == "VNodf") o = new VNodf;
         else o = new Listener;
+        g_residue = 0;
         objs[lbl] = o;
         return o;
     }
@@ -146,7 +179,37 @@ struct Run {
     void prebuild(const std::vector<ItemT>& items)
     {
         for (auto& it : items) {
-            if (it.kind == KVal) { vars.emplace_back(); varAt[it.lbl] = &vars.back(); build(vars.back(), it.val); }
+            if (it.kind == KVal || it.kind == KNamed) {
+                vars.emplace_back(); varAt[it.lbl] = &vars.back(); build(vars.back(), it.val);
+                if (it.kind == KNamed && it.hasName)
+                    vars.back().key = ScriptContext::Get().GetDirector().GetDictionary().Add(std::string(it.bytes.begin(), it.bytes.end()).c_str());
+            }
+            else if (it.kind == KVl) {
+                lists.emplace_back();
+                ScriptVariableList& vl = lists.back();
+                StringDictionary& dict = ScriptContext::Get().GetDirector().GetDictionary();
+                std::vector<const_str> ids;
+                for (auto& e : it.entries) {
+                    const const_str id = dict.Add(std::string(e.bytes.begin(), e.bytes.end()).c_str());
+                    ids.push_back(id);
+                    ScriptVariable* slot = vl.GetOrCreateVariable(id);
+                    varAt[e.lbl] = slot;
+                    build(*slot, e.val);
+                }
+                // the order in which the writer will walk the table, as indices into the insertion order
+                auto& set = vl.list;
+                std::string real = std::to_string(set.tableLength) + " " + std::to_string(set.threshold) + " " + std::to_string(set.tableLengthIndex);
+                std::vector<size_t> walk;
+                for (uintptr_t i = set.tableLength; i > 0; i--)
+                    for (auto* e = set.table[i - 1]; e; e = e->Next()) {
+                        size_t at = 0;
+                        while (at < ids.size() && ids[at] != e->Key()) ++at;
+                        walk.push_back(at);
+                        real += " " + std::to_string(at);
+                    }
+                canon.push_back(real);
+                if (set.tableLength != it.val.tl || set.threshold != it.val.th || set.tableLengthIndex != it.val.tli || walk != it.val.perm) canonBad = true;
+            }
             else if (it.kind == KObj) prebuild(it.body);
         }
     }
@@ -172,6 +235,7 @@ struct Run {
     void render(const ScriptVariable& v, const std::vector<size_t>& supply, size_t& next, std::string& out);
     ~Run()
     {
+        lists.clear();
         vars.clear();
         safe.clear();
         for (auto& kv : objs) delete kv.second;
@@ -394,10 +458,11 @@ void Run::render(const ScriptVariable& v, const std::vector<size_t>& supply, siz
                 render(e->Value(), supply, next, vs);
                 // every entry must be found again under its key (the table the load built must be usable)
                 const ScriptVariable* found = const_cast<ScriptArrayHolder*>(h)->arrayValue.find(e->Key());
-                if (found != &e->Value()) vs += "!lost";
-                es.emplace_back(ks, vs);
+                es.emplace_back(ks, (found != &e->Value() ? "!" : "") + vs);
             }
         std::sort(es.begin(), es.end());
+        // an entry that is not found under its own key is shown as `lost:<key>`
+        for (auto& e : es) if (!e.second.empty() && e.second[0] == '!') { e.first = "lost:" + e.first; e.second.erase(0, 1); }
         out += "arr " + std::to_string(lbl) + " " + std::to_string(h->refCount) + " " + std::to_string(set.tableLength) + " " +
             std::to_string(set.threshold) + " " + std::to_string(set.tableLengthIndex) + " " + std::to_string(es.size());
         for (auto& e : es) out += " " + e.first + " " + e.second;
@@ -531,6 +596,23 @@ void Run::exec(Archiver& arc, const std::vector<ItemT>& items, std::vector<ItemT
             vars[vi].ArchiveInternal(arc);
             break;
         }
+        case KNamed: {
+            if (reading) vars.emplace_back();
+            const size_t vi = reading ? vars.size() - 1 : nextVar++;
+            out[me].slot = vi;
+            out[me].val = it.val;
+            vars[vi].Archive(arc);      // the key through the dictionary, then ArchiveInternal
+            break;
+        }
+        case KVl: {
+            if (reading) lists.emplace_back();
+            const size_t li = reading ? lists.size() - 1 : nextList++;
+            out[me].slot = li;
+            out[me].val = it.val;
+            out[me].entries = it.entries;
+            lists[li].Archive(arc);     // Class::Archive, then con::set<const_str, ScriptVariable>::Archive
+            break;
+        }
         case KObj: {
             out[me].mode = it.mode;
             if (reading && it.mode != 0) {
@@ -541,6 +623,7 @@ void Run::exec(Archiver& arc, const std::vector<ItemT>& items, std::vector<ItemT
                 g_pending.out = &body;
                 const std::string want(it.bytes.begin(), it.bytes.end());
                 Class* c;
+                g_residue = (unsigned)(it.lbl % 6 + 1);
                 if (it.mode == 1) {
                     if (want == "VNode") c = arc.ReadObject<VNode>();
                     else if (want == "VNodf") c = arc.ReadObject<VNodf>();
@@ -548,6 +631,7 @@ void Run::exec(Archiver& arc, const std::vector<ItemT>& items, std::vector<ItemT
                 } else {
                     c = arc.ReadObject();
                 }
+                g_residue = 0;
                 g_pending = Pending();
                 Listener* l = dynamic_cast<Listener*>(c);
                 auto old = objs.find(it.lbl);
@@ -750,6 +834,33 @@ bool parseItem(const std::vector<std::string>& t, size_t& i, ItemT& it)
         i += 2;
         return parseValue(t, i, it.val);
     }
+    if (k == "nv") {
+        if (i + 2 >= t.size() || !nat(t[i + 1], v)) return false;
+        it.kind = KNamed;
+        it.lbl = v;
+        it.hasName = t[i + 2] != "-";
+        if (it.hasName && !unhex(t[i + 2], it.bytes)) return false;
+        i += 3;
+        return parseValue(t, i, it.val);
+    }
+    if (k == "vl") {
+        uint64_t tl, th, tli, n, a;
+        if (i + 4 >= t.size() || !nat(t[i + 1], tl) || !nat(t[i + 2], th) || !nat(t[i + 3], tli) || !nat(t[i + 4], n) || i + 5 + n > t.size()) return false;
+        it.kind = KVl;
+        it.val.tl = tl; it.val.th = th; it.val.tli = tli;
+        i += 5;
+        for (uint64_t e = 0; e < n; ++e) { if (!nat(t[i], a)) return false; it.val.perm.push_back(a); i += 1; }
+        for (uint64_t e = 0; e < n; ++e) {
+            if (i + 1 >= t.size() || !nat(t[i], a)) return false;
+            it.entries.emplace_back();
+            ItemT& en = it.entries.back();
+            en.kind = KNamed; en.lbl = a; en.hasName = true;
+            if (t[i + 1] == "-" || !unhex(t[i + 1], en.bytes)) return false;
+            i += 2;
+            if (!parseValue(t, i, en.val)) return false;
+        }
+        return true;
+    }
     if (k == "obj" || k == "objt" || k == "objp") {
         uint64_t n;
         it.mode = k == "obj" ? 0 : k == "objt" ? 1 : 2;
@@ -783,6 +894,43 @@ void showItems(const std::vector<ItemT>& items, Run& run, std::string& s)
             run.render(run.vars[it.slot], supply, next, s);
             break;
         }
+        case KNamed: {
+            std::vector<size_t> supply;
+            supplyOf(it.val, supply);
+            size_t next = 0;
+            const ScriptVariable& var = run.vars[it.slot];
+            StringDictionary& dict = ScriptContext::Get().GetDirector().GetDictionary();
+            std::string name = "-";
+            if (var.GetKey() != 0u) { const str& t = dict.Get(var.GetKey()); const unsigned char* p = reinterpret_cast<const unsigned char*>(t.c_str()); name = hexOf(Bytes(p, p + t.length())); }
+            s += "nv " + std::to_string(it.lbl) + " " + name + " ";
+            run.render(var, supply, next, s);
+            break;
+        }
+        case KVl: {
+            // as the model shows it: the set's header numbers, then every variable looked up BY NAME in the loading
+            // dictionary, in the order the archive holds them
+            ScriptVariableList& vl = run.lists[it.slot];
+            StringDictionary& dict = ScriptContext::Get().GetDirector().GetDictionary();
+            s += "p u32 " + std::to_string(vl.list.tableLength) + " p u32 " + std::to_string(vl.list.threshold) + " p u32 " +
+                std::to_string(vl.list.count) + " p u16 " + std::to_string(vl.list.tableLengthIndex);
+            for (size_t at : it.val.perm) {
+                if (at >= it.entries.size()) continue;
+                const ItemT& en = it.entries[at];
+                const std::string text(en.bytes.begin(), en.bytes.end());
+                const const_str id = dict.Get(text.c_str());
+                const ScriptVariable* var = id != 0u ? vl.GetVariable(id) : nullptr;
+                s += " nv " + std::to_string(en.lbl) + " ";
+                if (!var) { s += "?missing n"; continue; }
+                const str& t2 = dict.Get(var->GetKey());
+                const unsigned char* p = reinterpret_cast<const unsigned char*>(t2.c_str());
+                s += hexOf(Bytes(p, p + t2.length())) + " ";
+                std::vector<size_t> supply;
+                supplyOf(en.val, supply);
+                size_t next = 0;
+                run.render(*var, supply, next, s);
+            }
+            break;
+        }
         case KObj:
             s += std::string(it.mode == 0 ? "obj " : it.mode == 1 ? "objt " : "objp ") + std::to_string(it.lbl) + " " + hexOf(it.bytes) + " " + std::to_string(it.body.size());
             if (!it.body.empty()) { s += ' '; showItems(it.body, run, s); }
@@ -809,6 +957,7 @@ struct Case {
 // returns "ok <items>" / "err <exception>"; `shortForm`: "ok:<fnv>" / "<exception>"
 std::string readBack(const unsigned char* data, size_t len, bool shortForm, bool sameCtx = false)
 {
+    g_residue = 0;
     // an exact-size heap copy: a read past the end of the archive is an ASan report
     unsigned char* copy = static_cast<unsigned char*>(std::malloc(len ? len : 1));
     if (len) std::memcpy(copy, data, len);
@@ -853,12 +1002,24 @@ std::string readBack(const unsigned char* data, size_t len, bool shortForm, bool
         if (err) res = shortForm ? std::string(err) : std::string("err ") + err;
         else {
             std::string s;
-            for (const ItemT& it : out) if (it.kind == KVal) {
+            for (const ItemT& it : out) if (it.kind == KVal || it.kind == KNamed) {
                 std::vector<size_t> supply;
                 supplyOf(it.val, supply);
                 size_t next = 0;
                 run.varLabel[&run.vars[it.slot]] = it.lbl;
                 run.labelVars(run.vars[it.slot], supply, next);
+            } else if (it.kind == KVl) {
+                StringDictionary& dict = ScriptContext::Get().GetDirector().GetDictionary();
+                for (const ItemT& en : it.entries) {
+                    const const_str id = dict.Get(std::string(en.bytes.begin(), en.bytes.end()).c_str());
+                    ScriptVariable* var = id != 0u ? run.lists[it.slot].GetVariable(id) : nullptr;
+                    if (!var) continue;
+                    std::vector<size_t> supply;
+                    supplyOf(en.val, supply);
+                    size_t next = 0;
+                    run.varLabel[var] = en.lbl;
+                    run.labelVars(*var, supply, next);
+                }
             }
             showItems(out, run, s);
             res = shortForm ? "ok:" + std::to_string(fnv(s)) : "ok " + s;
@@ -1067,6 +1228,8 @@ int main(int argc, char** argv)
         if (t[0] == "lis") { say(lisCase(t)); continue; }
         if (t[0] == "arc" || t[0] == "canon") {
             const bool canonOnly = t[0] == "canon";
+            // the ids of the writing dictionary (the hash of a variable name) must not depend on earlier lines
+            ScriptContext::Get().GetDirector().Reset();
             uint64_t v;
             Bytes h, n;
             Case c;
